@@ -13,7 +13,7 @@ func init() {
 		id:  "C18",
 		run: runC18,
 		explanation: "Decided (structural, for every interleaving of AddRow calls, both writers): " +
-			"C18.locked — in everything reachable from AddRow, every access to the writer's fields (row counter, schema, bitmap map, temp transaction) and to the schema's and columns' maps happens with the writer's mutex held exclusively on every path (lock-state dataflow; callee context = meet over call sites; deferred unlock and deferred increment closure replayed in LIFO order, so swapping the two defers or narrowing the critical section is reported); " +
+			"C18.locked — in everything reachable from AddRow, every access to the writer's fields (row counter, schema, bitmap map, temp transaction) and to the schema's and columns' maps happens with the writer's mutex held exclusively on every path (lock-state dataflow; callee context = meet over call sites; deferred unlock and deferred increment closure replayed in LIFO order, so swapping the two defers or narrowing the critical section is reported). A writer with several mutexes: each field's guard is the one mutex held at its accesses; a mutex handed to a helper as a parameter is the field its call sites pass; a field no function assigns after construction may be read without a lock; a map of plain values or of pointers to guarded structs that only grows (every update anywhere is an insert under a key that a lookup in the same lock-free function has just reported absent; no delete/clear/reassignment) may be READ under the guard held shared — the lookup-under-RLock / register-under-Lock split — whereas an insert that does not look again makes those shared reads violations (a column added concurrently would be replaced); " +
 			"C18.rowid — the id a call adds to every bitmap / encodes into every temp key (directly or in a helper it calls, whose parameter is bound to the call's argument) and the id it returns are the same SSA value, the load of the row counter taken under the lock; the only stores to the counter anywhere are `counter + 1`, and every successful return of AddRow has passed exactly one such increment (the counter and the schema may live in a struct the writer holds by value — an embedded header shared with the Index: 'the writer's counter' is then that field selected from an object of the writer's type; an increment inside a method of the nested struct counts at the Call/Defer in AddRow that runs it on the writer's own struct, a call of it on the writer anywhere else is a modification outside AddRow, and its accesses are checked by C18.locked with the lock state at that call resp. at rundefers). " +
 			"C18.lockbalance — every mutex field a function reachable from AddRow/Flush acquires is released (directly or by a deferred unlock registered on that path) on every path to every return: a call that leaves the writer mutex locked blocks all other callers for ever. " +
 			"Hence calls are mutually exclusive, each gets one id, ids are consecutive from 0 and each row's values carry one id. " +
@@ -53,11 +53,48 @@ func structFields(n *types.Named, except *types.Var) map[*types.Var]bool {
 	return out
 }
 
+// mutexFieldsOf: the mutexes a struct holds by value, in declaration order.
+func mutexFieldsOf(n *types.Named) []*types.Var {
+	st, ok := n.Underlying().(*types.Struct)
+	if !ok {
+		return nil
+	}
+	var out []*types.Var
+	for i := 0; i < st.NumFields(); i++ {
+		f := st.Field(i)
+		if _, isPtr := f.Type().(*types.Pointer); isPtr {
+			continue
+		}
+		if typeIs(f.Type(), "sync", "Mutex") || typeIs(f.Type(), "sync", "RWMutex") {
+			out = append(out, f)
+		}
+	}
+	return out
+}
+
+// lockedRule: the lock discipline of everything AddRow reaches. A writer may split its state over several mutexes
+// (`schemaMtx` for the schema, `mtx` for the bitmaps and the counter): each guarded field then has ONE guard, the mutex of
+// the writer that is held at its accesses — exclusively at every write, and exclusively at every read as well, with one
+// exception that is argued rather than assumed: a map that only ever grows (growOnlyMap: every update of it anywhere in
+// the module enters a key that a lookup in the same lock-free function — hence the same critical section — has just
+// reported absent; never a delete, a clear or an assignment of the field) may be READ under the guard held shared: an
+// entry seen there stays what it is for ever, and an entry missed there is looked up again by the insert. That is the
+// `lookup under RLock, register under Lock` split; the variant whose insert does not look again (so that a column a
+// concurrent call has just added is replaced) makes the map not grow-only, and its shared reads are reported with that
+// reason. The counter is not a map: reading it under a shared lock stays a violation (two calls would take the same id).
+// A field that is never assigned after construction (no write access to it anywhere in the module except on an object
+// the writing function has just created) needs no lock to be read (`idx.schema`, the pointer; what it points to is
+// guarded field by field). A mutex the helper receives as a parameter is the field the call sites pass (lock.go
+// boundMutex). With a single mutex this is the rule as it always was: everything under that mutex, exclusively.
 func lockedRule(c *Ctx, rule, wname string, addRow *ssa.Function, typ *types.Named) {
-	mtx := mutexFieldOf(typ)
-	if mtx == nil {
+	mtxs := mutexFieldsOf(typ)
+	if len(mtxs) == 0 {
 		c.r.bad(rule, wname+": mutex", "writer type has no mutex field", []string{c.w.pos(addRow.Pos())})
 		return
+	}
+	isMtx := map[*types.Var]bool{}
+	for _, m := range mtxs {
+		isMtx[m] = true
 	}
 	re := c.w.reach(addRow)
 	la := newLockAn(c, []*ssa.Function{addRow}, re.Funcs)
@@ -69,7 +106,7 @@ func lockedRule(c *Ctx, rule, wname string, addRow *ssa.Function, typ *types.Nam
 	// `defer idx.rowAdded()` — touches it through its own receiver, with the lock state AddRow has at the call / at rundefers)
 	guarded := map[*types.Var]bool{}
 	for _, f := range heldFields(typ) {
-		if f != mtx {
+		if !isMtx[f] {
 			guarded[f] = true
 		}
 	}
@@ -80,6 +117,13 @@ func lockedRule(c *Ctx, rule, wname string, addRow *ssa.Function, typ *types.Nam
 		guarded[f] = true
 	}
 	fr := newFresh(c)
+	type lockedAcc struct {
+		fn *ssa.Function
+		a  access
+		st lockState
+	}
+	var order []*types.Var
+	byField := map[*types.Var][]lockedAcc{}
 	n := 0
 	for _, fn := range re.sorted() {
 		accs := fieldAccesses(fn, guarded)
@@ -96,27 +140,206 @@ func lockedRule(c *Ctx, rule, wname string, addRow *ssa.Function, typ *types.Nam
 				continue
 			}
 			n++
-			st := la.stateAt(a.Ins)
-			owner := ""
-			if o := c.w.ownerOf(a.Field); o != nil {
-				owner = o.Obj().Name() + "."
+			if _, seen := byField[a.Field]; !seen {
+				order = append(order, a.Field)
 			}
+			byField[a.Field] = append(byField[a.Field], lockedAcc{fn, a, la.stateAt(a.Ins)})
+		}
+	}
+	// satisfied: the access is covered by mutex m held as its kind demands (reads under a shared hold count here; whether
+	// a shared hold is enough for them is decided per access below)
+	satisfied := func(x lockedAcc, m *types.Var) bool {
+		if x.a.Write {
+			return x.st[m] == lkW
+		}
+		return x.st[m] != lkU
+	}
+	for _, f := range order {
+		accs := byField[f]
+		owner := ""
+		if o := c.w.ownerOf(f); o != nil {
+			owner = o.Obj().Name() + "."
+		}
+		written := false
+		for _, x := range accs {
+			written = written || x.a.Write
+		}
+		constant := !written && neverAssignedAfterConstruction(c, fr, f)
+		// the field's guard: the mutex that covers most of its accesses (all of them, if the discipline holds); the first
+		// in declaration order among equals
+		guard, best := mtxs[0], -1
+		for _, m := range mtxs {
+			k := 0
+			for _, x := range accs {
+				if satisfied(x, m) {
+					k++
+				}
+			}
+			if k > best {
+				guard, best = m, k
+			}
+		}
+		for _, x := range accs {
 			kind := "read"
-			if a.Write {
+			if x.a.Write {
 				kind = "write"
 			}
-			key := fmt.Sprintf("%s: %s: %s %s%s", wname, safeFname(fn), kind, owner, a.Field.Name())
-			switch st[mtx] {
-			case lkW:
-				c.r.ok(rule, key, "under exclusive "+typ.Obj().Name()+"."+mtx.Name(), c.w.ipos(a.Ins))
-			case lkR:
-				c.r.bad(rule, key, fmt.Sprintf("%s of %s%s while the writer's mutex is held only shared: concurrent AddRow calls are not mutually exclusive", a.What, owner, a.Field.Name()), []string{c.w.ipos(a.Ins)}, re.chain(fn)...)
+			key := fmt.Sprintf("%s: %s: %s %s%s", wname, safeFname(x.fn), kind, owner, f.Name())
+			held := x.st[guard]
+			switch {
+			case held == lkW:
+				c.r.ok(rule, key, "under exclusive "+typ.Obj().Name()+"."+guard.Name(), c.w.ipos(x.a.Ins))
+			case constant:
+				c.r.ok(rule, key, owner+f.Name()+" is never assigned after the writer was constructed: reading it needs no lock", c.w.ipos(x.a.Ins))
+			case held == lkR:
+				if !x.a.Write {
+					grows, why := growOnlyMap(c, fr, f, guarded)
+					if grows {
+						c.r.ok(rule, key, "under shared "+typ.Obj().Name()+"."+guard.Name()+"; the map only grows and every insert looks the key up again under the exclusive lock", c.w.ipos(x.a.Ins))
+						continue
+					}
+					if why != "" {
+						c.r.bad(rule, key, fmt.Sprintf("%s of %s%s while the writer's mutex is held only shared, and %s: what a concurrent AddRow has entered between this read and the insert is replaced or lost", x.a.What, owner, f.Name(), why), []string{c.w.ipos(x.a.Ins)}, re.chain(x.fn)...)
+						continue
+					}
+				}
+				c.r.bad(rule, key, fmt.Sprintf("%s of %s%s while the writer's mutex is held only shared: concurrent AddRow calls are not mutually exclusive", x.a.What, owner, f.Name()), []string{c.w.ipos(x.a.Ins)}, re.chain(x.fn)...)
 			default:
-				c.r.bad(rule, key, fmt.Sprintf("%s of %s%s while the writer's mutex is not held on every path", a.What, owner, a.Field.Name()), []string{c.w.ipos(a.Ins)}, re.chain(fn)...)
+				c.r.bad(rule, key, fmt.Sprintf("%s of %s%s while the writer's mutex is not held on every path", x.a.What, owner, f.Name()), []string{c.w.ipos(x.a.Ins)}, re.chain(x.fn)...)
 			}
 		}
 	}
 	c.r.Stats["guarded_accesses_"+wname] = n
+}
+
+// neverAssignedAfterConstruction: no function of the module writes field f (assigns it, updates or clears the map /
+// stores into the slice held in it, hands its address to a mutating call) except on an object it has just created.
+func neverAssignedAfterConstruction(c *Ctx, fr *Fresh, f *types.Var) bool {
+	only := map[*types.Var]bool{f: true}
+	for _, fn := range c.w.ModFuncs {
+		for _, a := range fieldAccesses(fn, only) {
+			if a.Write && !baseFresh(fr, a.Ins) {
+				return false
+			}
+		}
+	}
+	return true
+}
+
+// growOnlyMap: f holds a map that only ever grows. Every write access to it in the module (outside objects the writing
+// function has just created) is a map update that enters a key which a comma-ok lookup of the SAME map field of the same
+// object, under the SAME key, has reported absent on every path to the update — in a function that contains no lock
+// operation, so that lookup and update lie in one critical section of whatever lock its callers hold. A delete, a clear,
+// an assignment of the field, an update that is not preceded by such a lookup (`sch.Columns[k] = col` in a helper that
+// trusts a lookup its caller made under an earlier, shared hold of the lock) make the answer no; why says which.
+func growOnlyMap(c *Ctx, fr *Fresh, f *types.Var, guarded map[*types.Var]bool) (bool, string) {
+	m, isMap := f.Type().Underlying().(*types.Map)
+	if !isMap {
+		return false, ""
+	}
+	// what the map holds must itself be covered by this rule: plain values, or pointers to structs all of whose fields are
+	// guarded fields (a *column: its Values are checked access by access). A *roaring.Bitmap found under a shared lock
+	// could be mutated without any guarded field being touched, so such a map gets no shared reads.
+	switch e := m.Elem().Underlying().(type) {
+	case *types.Basic:
+	case *types.Pointer:
+		st, isStruct := e.Elem().Underlying().(*types.Struct)
+		if !isStruct || st.NumFields() == 0 {
+			return false, ""
+		}
+		for i := 0; i < st.NumFields(); i++ {
+			if !guarded[st.Field(i)] {
+				return false, ""
+			}
+		}
+	default:
+		return false, ""
+	}
+	only := map[*types.Var]bool{f: true}
+	for _, fn := range c.w.ModFuncs {
+		for _, a := range fieldAccesses(fn, only) {
+			if !a.Write || baseFresh(fr, a.Ins) {
+				continue
+			}
+			mu, isUpd := a.Ins.(*ssa.MapUpdate)
+			if !isUpd {
+				return false, fmt.Sprintf("the map does not only grow (%s in %s, %s)", a.What, safeFname(fn), c.w.ipos(a.Ins))
+			}
+			if !insertsIfAbsent(c, fn, mu) {
+				return false, fmt.Sprintf("%s assigns an entry of it without having looked that key up in the same critical section (%s)", safeFname(fn), c.w.ipos(mu))
+			}
+		}
+	}
+	return true, ""
+}
+
+// insertsIfAbsent: every path from fn's entry to the map update mu takes the "absent" edge of a comma-ok lookup of the
+// same map (the map field of the same object) under the same key, and fn contains no lock operation.
+func insertsIfAbsent(c *Ctx, fn *ssa.Function, mu *ssa.MapUpdate) bool {
+	locks := false
+	allInstrs(fn, func(i ssa.Instruction) {
+		if cc := callCommon(i); cc != nil {
+			if _, _, _, isLockOp := lockOp(cc); isLockOp {
+				locks = true
+			}
+		}
+	})
+	if locks {
+		return false
+	}
+	mapAddr := func(v ssa.Value) ssa.Value {
+		if ld, ok := v.(*ssa.UnOp); ok && ld.Op == token.MUL {
+			return ld.X
+		}
+		return nil
+	}
+	ma := mapAddr(mu.Map)
+	if ma == nil {
+		return false
+	}
+	var absent []ssa.Value
+	allInstrs(fn, func(i ssa.Instruction) {
+		lk, ok := i.(*ssa.Lookup)
+		if !ok || !lk.CommaOk || peel(lk.Index) != peel(mu.Key) {
+			return
+		}
+		if la := mapAddr(lk.X); la == nil || !sameFieldBase(la, ma) {
+			return
+		}
+		if e := extractOf(lk, 1); e != nil {
+			absent = append(absent, e)
+		}
+	})
+	if len(absent) == 0 {
+		return false
+	}
+	isOK := func(v ssa.Value) bool {
+		for _, o := range absent {
+			if o == v {
+				return true
+			}
+		}
+		return false
+	}
+	w := c.fc.pathAvoidingEdges(fn,
+		func(i ssa.Instruction) bool { return i == ssa.Instruction(mu) },
+		nil,
+		func(pred, succ *ssa.BasicBlock) bool {
+			iff, ok := pred.Instrs[len(pred.Instrs)-1].(*ssa.If)
+			if !ok || len(pred.Succs) != 2 {
+				return false
+			}
+			cond, pol := iff.Cond, pred.Succs[0] == succ
+			for {
+				if u, ok := cond.(*ssa.UnOp); ok && u.Op == token.NOT {
+					cond, pol = u.X, !pol
+					continue
+				}
+				break
+			}
+			return isOK(cond) && !pol
+		})
+	return w == nil
 }
 
 // rowidRule: one id per call; the id used for all values is the id returned; counter only ever incremented by one, once per successful call.
